@@ -260,4 +260,12 @@ theorem rep_affine (v d x : ℝ) : Rep v d (fun y => v + d * (y - x)) x :=
     refine this.congr_deriv ?_
     simp⟩
 
+/-- `finite_differentiators._get_epsilon`: the step `max(|value|, 1) · 1e-6` -/
+noncomputable def getEpsilon (v : ℝ) : ℝ := max |v| 1 * (1 / 1000000)
+
+theorem getEpsilon_pos (v : ℝ) : 0 < getEpsilon v := by
+  unfold getEpsilon
+  have : (0 : ℝ) < max |v| 1 := lt_of_lt_of_le one_pos (le_max_right _ _)
+  positivity
+
 end IrisVerif.AD
